@@ -19,18 +19,22 @@ MC = "pandapipes.multinet.control.controller.multinet_control"
 MRC = "pandapipes.multinet.control.run_control_multinet"
 
 EXPLANATION = (
-    "(R20.1) the conversion-factor methods of the three coupling controllers are evaluated to exact rational normal "
-    "forms over the heating value symbol: mw->kg/s times kg/s->mw equals 1, gas1->gas2 times gas2->gas1 equals 1; the "
-    "value assigned in every arm of control_step is (product of the two columns read) * factor * efficiency, resp. "
-    "divided by (factor * efficiency) for the power-led arm, so that P2G followed by G2P returns eta1*eta2*p. (R20.2) "
-    "the try (.at[idx, col]) and except (.loc[idx, col].values) arms of every read and write reference the same net "
-    "name attribute, table, index attribute and column, and reads multiply the value column with the scaling column of "
-    "the same element. (R20.3) write_to_net stores the attribute that the same arm (el_power_led or not) of control_step "
-    "assigned, into the column the opposite side reads. (R20.4) _evaluate_multinet aggregates the member verdicts with "
-    "np.all, re-evaluates only nets selected by _relevant_nets and keeps the previous entry for the others. (R20.5) the "
-    "top-level error tuple covers the pandapipes members' non-convergence class. (R20.7) the controller tables of the multinet and of its members are combined by column label before they are ordered. "
-    "(R20.6) get_all_net_names of every coupling controller returns exactly the member nets its control step reads or writes, so that _relevant_nets recalculates every net that was written. Not decided: that member nets hold the "
-    "results of a stand-alone calculation (runtime).")
+    '(R20.1) the conversion-factor methods of the three coupling controllers are evaluated to exact rational normal forms'
+    ' over the heating value symbol: mw->kg/s times kg/s->mw equals 1, gas1->gas2 times gas2->gas1 equals 1; the value '
+    'assigned in every arm of control_step is (product of the two columns read) * factor * efficiency, resp. divided by '
+    '(factor * efficiency) for the power-led arm, so that P2G followed by G2P returns eta1*eta2*p. (R20.2) the try '
+    '(.at[idx, col]) and except (.loc[idx, col].values) arms of every read and write reference the same net name '
+    'attribute, table, index attribute and column, and reads multiply the value column with the scaling column of the '
+    'same element. (R20.3) write_to_net stores the attribute that the same arm (el_power_led or not) of control_step '
+    'assigned, into the column the opposite side reads. (R20.4) _evaluate_multinet aggregates the member verdicts with '
+    'np.all, re-evaluates only nets selected by _relevant_nets and keeps the previous entry for the others. (R20.5) the '
+    "top-level error tuple covers the pandapipes members' non-convergence class. (R20.7) the controller tables of the "
+    'multinet and of its members are combined by column label before they are ordered. (R20.6) get_all_net_names of every'
+    ' coupling controller returns exactly the member nets its control step reads or writes, so that _relevant_nets '
+    'recalculates every net that was written. (R20.8) the controller table schema of the multinet (names and dtypes of '
+    "'object', 'in_service', 'order', 'level', ...) equals the schema of the member nets' controller table, so combining "
+    'and ordering the tables does not coerce the order key. Not decided: that member nets hold the results of a stand-'
+    'alone calculation (runtime).')
 ASSUMPTIONS = ["pandas .at / .loc address the same cell for a scalar index", "the higher heating value property is positive"]
 TECHNIQUE = "normal forms of the conversion factors and control-step formulas; structural agreement of sibling arms"
 
